@@ -39,6 +39,16 @@ def gen_config(rng, profile="plain", opts=None):
         if opts.get("extra_after_index", rng.random() < 0.3):
             cfg["M9"] = dict(cfg[names[0]])
             cfg["simulation"]["markets"].append("M9")
+        if opts.get("nested_index", False):
+            # an index of an index: the inner index market is a component like any other market (it has a
+            # market price of its own and declares outstanding shares)
+            if "M9" not in cfg:
+                cfg["M9"] = dict(cfg[names[0]])
+                cfg["simulation"]["markets"].append("M9")
+            cfg["M9"]["outstandingShares"] = cfg["M9"].get("outstandingShares") or 1000
+            cfg["IDX2"] = {"class": "ProbeIndexMarket", "tickSize": 0.01, "marketPrice": 280.0,
+                           "outstandingShares": 5000, "markets": ["IDX", "M9"] if rng.random() < 0.5 else ["M9", "IDX", names[0]]}
+            cfg["simulation"]["markets"].append("IDX2")
     all_mk = list(cfg["simulation"]["markets"])
     n_norm = opts.get("n_normal", rng.choice([0, 1, 3, 5, 8]))
     n_hft = opts.get("n_hft", rng.choice([0, 0, 1, 2, 3]))
